@@ -136,7 +136,7 @@ def motion_case(run, specs, env, R, t, kind, names):
                  sample={"motion": kind, "op": n, "R": R.tolist(), "t": list(map(float, t)), "basis": core.describe_basis(specs)})
         run.count("motion " + kind)
         run.count("function " + n)
-        tol = (1e-6 if n.startswith("eri") else (1e-11 if exact else 1e-9)) * max(1e-300, float(np.abs(a1).max()))
+        tol = pf.rel_tol(n, a1)
         if a1.shape != a2.shape or np.abs(a1 - a2).max() > tol:
             run.violation(f"{n} is not covariant under the rigid motion ({kind})",
                           {"case": "motion", "function": n, "basis": core.describe_basis(specs), "R": R.tolist(), "t": list(map(float, t)),
@@ -159,7 +159,7 @@ def motion_case(run, specs, env, R, t, kind, names):
         ("electrostatic_potential", lambda: electrostatic_potential(b1, g, env.points, env.charge_pos, np.abs(env.charges)),
          lambda: electrostatic_potential(b2, g2, env2.points, env2.charge_pos, np.abs(env.charges)))):
         x, y = f1(), f2()
-        if np.abs(x - y).max() > 1e-8 * max(1e-300, float(np.abs(x).max())):
+        if np.abs(x - y).max() > 1e-8 * float(np.abs(x).max()) + 1e-12:
             run.violation(f"{name} changes under a rigid motion of the whole system ({kind})",
                           {"case": "invariant", "function": name, "basis": core.describe_basis(specs), "R": R.tolist(), "t": list(map(float, t)),
                            "signature": {"kind": "rigid-motion-invariant"}})
@@ -176,7 +176,7 @@ def angmom_shift_case(run, specs, d):
     exp = L1 + np.stack([d[1] * P[:, :, 2] - d[2] * P[:, :, 1], d[2] * P[:, :, 0] - d[0] * P[:, :, 2], d[0] * P[:, :, 1] - d[1] * P[:, :, 0]], axis=2)
     run.case(("angmom-shift",) + sig(specs))
     run.count("angmom origin law")
-    if np.abs(L2 - exp).max() > 1e-9 * max(1e-300, float(np.abs(exp).max())):
+    if np.abs(L2 - exp).max() > 1e-9 * float(np.abs(exp).max()) + 1e-12:
         run.violation("angular momentum about the coordinate origin does not shift by d x p under a translation by d",
                       {"case": "angmom_shift", "basis": core.describe_basis(specs), "d": list(map(float, d)), "signature": {"kind": "angmom-shift"}})
         return False
